@@ -3,7 +3,7 @@ from __future__ import annotations
 
 from .. import scaffolds as S
 from ..engine_ch import Free, Harness
-from ..mdutil import build_doc, exc_record, free_doc, get_md, pipeline_nn, scaffold_frees, shard_extras, stream_view
+from ..mdutil import deep_equal, build_doc, exc_record, free_doc, get_md, pipeline_nn, scaffold_frees, shard_extras, stream_view
 from ..sym import realize
 
 EXPLANATION = (
@@ -112,7 +112,7 @@ def _run(params, values):
         return [exc_record(e, "roundtrip")], "raised"
     if not (h1 == h2 == h3):
         recs.append({"key": "render-not-repeatable"})
-    if mid != after:
+    if not deep_equal(mid, after):
         recs.append({"key": "render-mutates-tokens"})
     return recs, h3
 
